@@ -21,7 +21,8 @@ def configs(tier):
           Config(levels=3, z=True, ndisks=3, hashkind="spooky2", hashsize=8),
           Config(levels=6, ndisks=2),
           Config(levels=2, ndisks=3, tag="hole"),
-          Config(levels=2, ndisks=2, tag="rehash")]
+          Config(levels=2, ndisks=2, tag="rehash"),
+          Config(levels=1, ndisks=4, tag="sparse")]
     if tier == "thorough":
         cs += [Config(levels=3, ndisks=4, blocksize=2), Config(levels=4, ndisks=3, hashkind="spooky2"),
                Config(levels=5, ndisks=2, contents=["c0/content", "c1/content", "d2/sub/.content"]),
@@ -37,9 +38,13 @@ def init_ops(cfg):
     if cfg.ndisks >= 2:
         ops += [("write", "d2", "b/c", 1025, 0), ("write", "d2", "back\\sl", 5000, 0), ("write", "d2", ODD, 0, 0),
                 ("mkdir", "d2", "e1/e2"), ("symlink", "d2", "b/abs", "/nonexistent/target")]
-    if cfg.ndisks >= 3:
+    if cfg.tag == "sparse":
+        # disks whose whole content is one symbolic link / one empty directory (no anchor, no file)
+        ops = [o for o in ops if o[1] not in ("d3", "d4")]
+        ops += [("symlink", "d3", "only-a-link", "../d1/a"), ("mkdir", "d4", "only/an/empty/dir")]
+    elif cfg.ndisks >= 3:
         ops += [("write", "d3", "dir/c", 3000, 0), ("write", "d3", ".hid", 10, 0)]
-    if cfg.ndisks >= 4:
+    if cfg.ndisks >= 4 and cfg.tag != "sparse":
         ops += [("write", "d4", "x/y/z", 4096, 0)]
     ops.append(("cmd", "sync"))
     if cfg.tag == "rehash":
